@@ -59,8 +59,8 @@ LEAN = {"module": "Pygom.Props.C19",
                      "Pygom.C19.seed_table_complete", "Pygom.C19.test_seed_decision_table", "Pygom.C19.seeded_generators_reproducible",
                      "Pygom.C19.exp_rate_parameterisation", "Pygom.C19.gamma_rate_parameterisation", "Pygom.C19.norm_sd_parameterisation",
                      "Pygom.C19.nb2pmf_is_mass", "Pygom.C19.nb_mean_size_eq_np"]}
-BUDGET = {"quick": {"dpq": 120, "seed": 40, "arrays": 100, "seedhist": 400, "search": 300},
-          "thorough": {"dpq": 8000, "seed": 2500, "arrays": 2500, "seedhist": 8000, "search": 2500}}
+BUDGET = {"quick": {"dpq": 120, "large": 40, "seed": 40, "arrays": 100, "seedhist": 400, "search": 300},
+          "thorough": {"dpq": 8000, "large": 1500, "seed": 2500, "arrays": 2500, "seedhist": 8000, "search": 2500}}
 RULE = ("per family in {exp, gamma, norm, chisq, unif, beta, pois, binom, nbinom}: random valid parameters (rates / sds away from 1), "
         "6 arguments in the support and 4 probabilities in (0.01, 0.99), log in {False, True}, nbinom by prob and by mu, both tails; "
         "per generator: integer seeds (0 included), n = 1 and n > 1.  A d/p/q case is non-trivial when some argument has 1e-6 < cdf < "
@@ -69,10 +69,19 @@ RULE = ("per family in {exp, gamma, norm, chisq, unif, beta, pois, binom, nbinom
         "float / int ndarray, list, view; parameters as Python scalars, numpy scalars, 0-d arrays or arrays refilled in place), non-trivial when "
         "some function accepted arrays, every accepted call returned and a buffer was re-used with changed content.  seedhist cases: 8-20 calls of "
         "1-3 generators x 1-2 integer seeds x n in {1, n>1} with unseeded / seed=True / RandomState-seeded calls and global re-seeding in between, "
-        "non-trivial when some (generator, parameters, n, seed) was called at least twice with other calls in between and all calls returned")
+        "non-trivial when some (generator, parameters, n, seed) was called at least twice with other calls in between and all calls returned.  "
+        "ROUND D, large-argument d/p/q cases (regime=large, per family): rates / sds / widths log-uniform in [1e-3, 1e3], shapes 20-1000 or 0.05-0.5, "
+        "df 100-3000, Poisson means 100-5000, binomial sizes 200-5000 with prob near 0 / near 1 / central, negative-binomial sizes 100-5000 "
+        "(integer or not) by mu in 100-5000 or by prob near 0 / near 1 / central (mean <= 2e4); 6 arguments within +-7 (nbinom: 4) standard deviations "
+        "of the mean, probabilities 0.01-0.99 and 1e-6..1e-2 from either end; log values judged on the log scale (1e-9 (1+|log|) absolute), plain "
+        "values to 1e-7 relative where representable (> 1e-290), quantiles through the closed-form cdf of the neighbouring floats")
 ASSUMPTIONS = ["scipy.stats d/p/q methods implement the named families (validated per case against mpmath closed forms, not proved)",
                "numpy.random.RandomState(seed) is a function of the seed alone; numpy's samplers have the named laws (DKW test per run)",
-               "float arithmetic versus exact values: relative tolerance 1e-8 (references: mpmath, 30 digits)"]
+               "float arithmetic versus exact values: relative tolerance 1e-8 (references: mpmath, 30 digits)",
+               "large-argument regime: a log value is a sum of terms of size up to ~|log| + 1e4, each rounded to 1e-16 relative (observed error <= 1e-11): "
+               "absolute tolerance 1e-9 (1 + |log|); plain values are exponentials of such logs: 1e-7 relative; a log cdf whose plain value is below 1e-290 "
+               "is not judged (scipy takes log(cdf)); a quantile whose true value is outside the float range, or closer to 1 than one float, is judged "
+               "through the closed-form cdf four floats either side of the returned value"]
 TRUSTED = ["harness/translate_wrappers.py + translate_kernels.py (symbolic executor, table printer)", "mpmath closed forms of the nine families",
            "the recording wrappers on np.random.RandomState / np.random.<fn> / scipy rvs"]
 
@@ -197,6 +206,69 @@ def _dpq_case(r, fam):
     return {"kind": "dpq", "family": fam, "params": p, "xs": xs, "us": [round(r.uniform(0.01, 0.99), 6) for _ in range(4)]}
 
 
+def _logu(r, lo, hi, nd=6):
+    return float("%.*g" % (nd, math.exp(r.uniform(math.log(lo), math.log(hi)))))
+
+
+def _large_case(r, fam):
+    """ROUND D: the LARGE-ARGUMENT regime of every family - counts and sizes in the hundreds / thousands, rates / shapes / scales
+    from 1e-3 to 1e3, probabilities near 0 and near 1 - where a formula that is fine for moderate arguments overflows, underflows
+    or cancels (seeded C19-d1: log(binom(k+x-1, x)) = inf once the coefficient exceeds 1.8e308).  The references are the same
+    mpmath closed forms (exact at any size; discrete cdfs by the exact pmf recurrence, see _cum_table).  Arguments sit within a few
+    standard deviations of the mean, some far in a tail."""
+    z = lambda: r.choice([-1, 1]) * r.choice([r.uniform(0, 2), r.uniform(0, 2), r.uniform(2, 5), r.uniform(5, 7)])
+    xs = []
+    if fam == "exp":
+        p = {"rate": _logu(r, 1e-3, 1e3)}
+        xs = [_logu(r, 1e-3, 30.0) / p["rate"] for _ in range(6)]
+    elif fam == "gamma":
+        p = {"shape": _logu(r, 20.0, 1e3) if r.random() < 0.8 else _logu(r, 0.05, 0.5), "rate": _logu(r, 1e-3, 1e3)}
+        m, sd = p["shape"] / p["rate"], math.sqrt(p["shape"]) / p["rate"]
+        xs = [max(m + z() * sd, m * 1e-3) for _ in range(6)]
+    elif fam == "norm":
+        p = {"mean": r.choice([-1, 1]) * _logu(r, 1e-3, 1e3), "sd": _logu(r, 1e-3, 1e3)}
+        xs = [p["mean"] + z() * p["sd"] for _ in range(6)]
+    elif fam == "chisq":
+        p = {"df": float(r.randint(100, 3000)) if r.random() < 0.5 else _logu(r, 100.0, 3000.0)}
+        xs = [max(p["df"] + z() * math.sqrt(2 * p["df"]), 1.0) for _ in range(6)]
+    elif fam == "unif":
+        lo = r.choice([-1, 1]) * _logu(r, 1e-3, 1e3)
+        p = {"min": lo, "max": float("%.9g" % (lo + _logu(r, 1e-3, 1e3)))}
+        xs = [p["min"] + (p["max"] - p["min"]) * r.choice([r.random(), 1e-6, 1 - 1e-6]) for _ in range(6)]
+    elif fam == "beta":
+        big, small = (lambda: _logu(r, 20.0, 1e3)), (lambda: _logu(r, 0.05, 0.5))     # (smaller shapes: quantiles of 1e-6 underflow)
+        a, b = r.choice([(big(), big()), (big(), big()), (big(), small()), (small(), big()), (big(), r.uniform(1.0, 5.0))])
+        p = {"shape1": a, "shape2": b}
+        m, sd = a / (a + b), math.sqrt(a * b / ((a + b) ** 2 * (a + b + 1)))
+        xs = [min(max(m + z() * sd, 1e-9), 1 - 1e-9) for _ in range(6)]
+    elif fam == "pois":
+        p = {"mu": _logu(r, 100.0, 5000.0)}
+        xs = [max(0, int(round(p["mu"] + z() * math.sqrt(p["mu"])))) for _ in range(6)]
+    elif fam == "binom":
+        n = r.randint(200, 5000)
+        q = r.choice([_logu(r, 1e-4, 0.05), 1 - _logu(r, 1e-4, 0.05), round(r.uniform(0.05, 0.95), 6)])
+        p = {"size": n, "prob": q}
+        m, sd = n * q, math.sqrt(n * q * (1 - q))
+        xs = [min(n, max(0, int(round(m + z() * max(sd, 1.0))))) for _ in range(6)]
+    elif fam == "nbinom":
+        size = float(r.randint(100, 5000)) if r.random() < 0.5 else _logu(r, 100.0, 5000.0)
+        if r.random() < 0.5:
+            q = r.choice([_logu(r, 1e-3, 0.1), 1 - _logu(r, 1e-3, 0.1), round(r.uniform(0.1, 0.9), 6)])
+            q = max(q, float("%.6g" % (size / (size + 2.0e4))))        # mean at most 2e4 (the reference tables stay small)
+            p = {"size": size, "prob": q}
+            mu = size * (1 - q) / q
+        else:
+            mu = _logu(r, 100.0, 5000.0)
+            p = {"size": size, "mu": mu}
+        sd = math.sqrt(mu + mu * mu / size)
+        xs = [min(200000, max(0, int(round(mu + min(abs(zz), 4.0) * (1 if zz > 0 else -1) * max(sd, 1.0))))) for zz in [z() for _ in range(6)]]
+    else:
+        raise ValueError(fam)
+    xs = [int(x) if fam in DISCRETE else float("%.9g" % x) for x in xs]
+    us = [round(r.uniform(0.01, 0.99), 6), round(r.uniform(0.01, 0.99), 6), _logu(r, 1e-6, 1e-2), 1 - _logu(r, 1e-6, 1e-2)]
+    return {"kind": "dpq", "regime": "large", "family": fam, "params": p, "xs": xs, "us": us}
+
+
 def _seed_case(r, fam):
     return {"kind": "seed", "family": fam, "params": _params(r, fam), "seed": r.choice([0, 1, 2, 7, 12345, r.randint(0, 2 ** 31 - 1)]),
             "n_many": r.choice([2, 3, 5, 17]), "other_seed": r.randint(0, 10 ** 6)}
@@ -227,6 +299,9 @@ def make_cases(rng, tier, budget):
             out.append(_arrays_case(random.Random(rng.getrandbits(64)), fam))
     for i in range(budget.get("seedhist", 0)):
         out.append(_seedhist_case(random.Random(rng.getrandbits(64)), force=(DOCUMENTED + ["nbinom"])[i % 8] if i < 64 else None))
+    for fam in FAMILIES:                                  # drawn last: the earlier kinds are the same cases as before
+        for _ in range(budget.get("large", 0)):
+            out.append(_large_case(random.Random(rng.getrandbits(64)), fam))
     return out
 
 
@@ -237,6 +312,7 @@ def search_cases(rng, tier, budget):
     fams_s = [f[1:] for f in bad_s if f[1:] in FAMILIES] or (DOCUMENTED + ["nbinom"])
     for i in range(budget["search"]):
         out.append(_dpq_case(random.Random(rng.getrandbits(64)), fams_w[i % len(fams_w)]))
+        out.append(_large_case(random.Random(rng.getrandbits(64)), fams_w[i % len(fams_w)]))
         out.append(_seed_case(random.Random(rng.getrandbits(64)), fams_s[i % len(fams_s)]))
         out.append(_arrays_case(random.Random(rng.getrandbits(64)), FAMILIES[i % len(FAMILIES)]))
         out.append(_seedhist_case(random.Random(rng.getrandbits(64))))
@@ -294,6 +370,32 @@ def ref_cdf(fam, p, x):
     if fam == "beta":
         return mpmath.betainc(_mp(p["shape1"]), _mp(p["shape2"]), 0, x, regularized=True) if x > 0 else mpmath.mpf(0)
     raise ValueError(fam)
+
+
+def _cum_table(fam, p, kmax):
+    """cdf(0..kmax) of a discrete family from pmf(0) in closed form and the EXACT ratio pmf(j+1)/pmf(j) of the closed form
+    (30-digit arithmetic: the accumulated rounding over 1e5 steps is < 1e-24 relative); extended on demand by _cum_get"""
+    tab = {"pmf": [ref_pdf(fam, p, 0)], "cum": []}
+    tab["cum"].append(tab["pmf"][0])
+    _cum_get(tab, fam, p, kmax)
+    return tab
+
+
+def _cum_get(tab, fam, p, k):
+    pm, cu = tab["pmf"], tab["cum"]
+    if fam == "binom" and k >= int(p["size"]):
+        k = int(p["size"])
+    if fam == "pois":
+        m = _mp(p["mu"]); ratio = lambda j: m / (j + 1)
+    elif fam == "binom":
+        n, q = int(p["size"]), _mp(p["prob"]); odds = q / (1 - q); ratio = lambda j: odds * (n - j) / (j + 1)
+    else:
+        n, q1 = _mp(p["size"]), 1 - _nb_p(p); ratio = lambda j: q1 * (n + j) / (j + 1)
+    while len(cu) <= k:
+        j = len(cu) - 1
+        pm.append(pm[j] * ratio(j))
+        cu.append(cu[j] + pm[j + 1])
+    return cu[k]
 
 
 def ref_cdf_float(fam, p, xs):
@@ -394,7 +496,7 @@ def _real_call(fn, *a, **k):
 # ------------------------------------------------------------------------------------------ d / p / q
 def _run_dpq(case):
     from pygom.utilR import distn
-    mpmath.mp.dps = 30
+    mpmath.mp.dps = 60 if case.get("regime") == "large" else 30      # (large: upper tails 1 - cdf down to 1e-30 keep 1e-8 relative)
     fam, p = case["family"], case["params"]
     tags = ["dpq:" + fam] + (["nbinom:by-" + ("mu" if "mu" in p else "prob")] if fam == "nbinom" else [])
     mism, viol = [], []
@@ -406,7 +508,24 @@ def _run_dpq(case):
     all_numbers = True
     seen = set()
 
+    large = case.get("regime") == "large"
+    if large:
+        tags.append("regime:large-arguments")
+    # large regime: discrete cdfs from the exact pmf recurrence (one table per case), the quantile walk through the same table
+    kmax = 0
+    if large and fam in DISCRETE:
+        kmax = int(max(case["xs"])) + 1
+    cum = _cum_table(fam, p, kmax) if (large and fam in DISCRETE) else None
+
+    def cdf_ref(x):
+        if cum is not None:
+            k = int(math.floor(x))
+            return mpmath.mpf(0) if k < 0 else _cum_get(cum, fam, p, k)
+        return ref_cdf(fam, p, x)
+
     def violation(fn, cls, what):
+        if large:
+            cls += ":large-arguments"
         sig = "%s:%s" % (fn, cls)
         if sig not in seen:
             seen.add(sig)
@@ -451,7 +570,15 @@ def _run_dpq(case):
             violation(fn_name, "raises", "%s raised %s" % (label, got[1]))
             return None
         exp = float(expected)
-        if not _close(got[1], exp):
+        # large regime: log values are judged on the log scale with an absolute tolerance that allows for the rounding of the
+        # O(|log|)-sized terms they are sums of (1e-12 |log| observed at most; 1e-9 (1 + |log|) allowed); plain values relatively
+        # (1e-7: the exponential of such a log) where representable - a plain value below 1e-290 only has to be below 1e-280
+        if large:
+            ok = (_close(got[1], exp, 0.0, 1e-9 * (1.0 + abs(exp))) if log else
+                  (_close(got[1], exp, 1e-7, 0.0) if abs(exp) > 1e-290 else (not math.isnan(got[1]) and abs(got[1]) < 1e-280)))
+        else:
+            ok = _close(got[1], exp)
+        if not ok:
             cls = "value"
             if wrong:
                 for name, val in wrong.items():
@@ -459,13 +586,15 @@ def _run_dpq(case):
                         cls = name
             if log and expected_plain is not None and cls == "value":
                 plain = _real_call(f, first, *pos, **dict(k, log=False))
-                if plain[0] == "value" and (plain[1] == got[1] or (math.isnan(plain[1]) and math.isnan(got[1]))):
+                if plain[0] == "value" and math.isfinite(got[1]) and plain[1] == got[1]:
+                    cls = "log-ignored"
+                elif plain[0] == "value" and not large and math.isnan(plain[1]) and math.isnan(got[1]):
                     cls = "log-ignored"
             violation(fn_name, cls, "%s = %r but the closed form gives %r" % (label, got[1], exp))
         return got[1]
 
     for x in case["xs"]:
-        pdf, cdf = ref_pdf(fam, p, x), ref_cdf(fam, p, x)
+        pdf, cdf = ref_pdf(fam, p, x), cdf_ref(x)
         if 1e-6 < cdf < 1 - 1e-6:
             nontrivial = True
         if pdf > 0:
@@ -473,7 +602,7 @@ def _run_dpq(case):
             check("d" + fam, x, mpmath.log(pdf), True, expected_plain=pdf)
         if fam != "beta" or hasattr(distn, "pbeta"):
             check("p" + fam, x, cdf, False, wrong={"returns-pdf": pdf})
-            if cdf > 0:
+            if cdf > 0 and not (large and cdf < 1e-290):      # (a log cdf whose plain value is not representable: scipy takes log(cdf), assumption "scipy implements the families")
                 check("p" + fam, x, mpmath.log(cdf), True, expected_plain=cdf, wrong={"returns-pdf": mpmath.log(pdf) if pdf > 0 else mpmath.mpf(0)})
             if fam == "nbinom":
                 check("p" + fam, x, 1 - cdf, False, lower=False)
@@ -487,7 +616,16 @@ def _run_dpq(case):
             for log in ((False, True) if "log" in q_formals else (False,)):
                 arg = math.log(u) if log else u
                 target = u if lower else 1 - u          # the lower-tail probability the quantile must invert
-                if fam in DISCRETE:
+                if fam in DISCRETE and cum is not None:
+                    k = 0
+                    while _cum_get(cum, fam, p, k) < target and k < 200000:
+                        k += 1
+                    c = _cum_get(cum, fam, p, k)
+                    below = _cum_get(cum, fam, p, k - 1) if k > 0 else mpmath.mpf(0)
+                    if abs(c - target) < 1e-7 * min(target, 1 - target) or abs(below - target) < 1e-7 * min(target, 1 - target):
+                        continue
+                    check("q" + fam, arg, k, log, lower=lower, expected_plain=k)
+                elif fam in DISCRETE:
                     # generalised inverse: smallest k with cdf(k) >= target
                     k = 0
                     c = ref_cdf(fam, p, 0)
@@ -518,20 +656,36 @@ def _run_dpq(case):
                     if res[0] == "raise":
                         all_numbers = False; violation("q" + fam, "raises", label + " raised " + str(res[1])); continue
                     back = mpmath.nan if math.isnan(res[1]) else ref_cdf(fam, p, res[1])
-                    if math.isnan(res[1]) or abs(float(back) - target) > 1e-8:
+                    # (large regime: relative to the smaller tail, plus what one unit in the last place of the returned x is worth)
+                    tolq = 1e-8
+                    if large and not math.isnan(res[1]) and not math.isinf(res[1]):
+                        # accepted when the target lies between the closed-form cdf four floats below and four floats above the
+                        # returned x (a quantile within 1e-33 of 1, or on a coarse float grid far from 0, has no better answer)
+                        sp_ = 4 * float(np.spacing(abs(res[1]) if res[1] != 0 else 1e-300))
+                        clamp = (lambda v: min(max(v, 0.0), 1.0)) if fam == "beta" else (lambda v: v)
+                        lo_, hi_ = ref_cdf(fam, p, clamp(res[1] - sp_)), ref_cdf(fam, p, clamp(res[1] + sp_))
+                        if fam == "beta" and res[1] + sp_ >= 1.0:
+                            hi_ = mpmath.mpf(1)
+                        if float(lo_) - 1e-7 * min(target, 1 - target) <= target <= float(hi_) + 1e-7 * min(target, 1 - target):
+                            continue
+                        tolq = 1e-7 * min(target, 1 - target)
+                    if large and not math.isnan(res[1]) and 0 <= res[1] < 1e-290 and fam in ("gamma", "beta", "exp", "chisq") and back >= target:
+                        tags.append("large:quantile-below-the-float-range")      # the true quantile is not representable: nothing to judge
+                        continue
+                    if math.isnan(res[1]) or abs(float(back) - target) > tolq:
                         violation("q" + fam, "log-ignored" if log else "value",
                                   "%s = %r whose closed-form cdf is %s, not %r" % (label, res[1], mpmath.nstr(back, 12), target))
     # self-consistency of the real functions (continuous families): p(q(u)) = u and d = dp/dx by central differences
     if fam not in DISCRETE and not viol:
         fq, fp, fd = getattr(distn, "q" + fam, None), getattr(distn, "p" + fam, None), getattr(distn, "d" + fam, None)
-        if fq and fp:
+        if fq and fp and not large:
             for u in case["us"]:
                 a = _real_call(fq, u, *pos, **kw)
                 if a[0] == "value":
                     b = _real_call(fp, a[1], *pos, **kw)
                     if b[0] == "value" and abs(b[1] - u) > 1e-8:
                         violation("p" + fam, "p(q(u))!=u", "p%s(q%s(%r)) = %r (%s)" % (fam, fam, u, b[1], p))
-        if fp and fd:
+        if fp and fd and not large:      # (large regime: the closed forms above are the judge; a difference quotient adds nothing there)
             for x in case["xs"]:
                 scale = max(abs(x), 1e-2)
                 h = 1e-5 * scale
